@@ -44,7 +44,7 @@ func c15Sources(tier string) []struct {
 		n    int
 		want int
 	}{
-		{"C01", 96, pick(96, 96)},
+		{"C01", 116, pick(116, 116)},
 		{"C02", 600, pick(300, 600)},
 		{"C03", 144, pick(72, 144)},
 		{"C04", 30, pick(30, 30)},
@@ -62,6 +62,7 @@ func c15Sources(tier string) []struct {
 		{"concurrent-accessors", 64, pick(64, 64)},
 		{"proxy-attach-vs-failure", 24, pick(24, 24)},
 		{"concurrent-aborts", 48, pick(48, 48)},
+		{"websocket-streams", 6, pick(6, 6)},
 	}
 }
 
@@ -129,6 +130,9 @@ func c15Run(tier string, seed int64, idx int) *core.Result {
 		sub = c15ProxyAttach(qs, seed, c.Index)
 	case "concurrent-aborts":
 		sub = c15Aborts(qs, seed, c.Index)
+	case "websocket-streams":
+		sub = &core.Result{Verdict: core.Held}
+		wsWorkload(seed, c.Index, wsGen(c.Index, true), "isolation", sub)
 	}
 	res := &core.Result{Verdict: core.Held, Sample: c, Sig: fmt.Sprintf("%+v", c), NonTrivial: c.GMP > 1, Retire: sub.Retire}
 	// only race reports (collected by the parent from the detector's log) count here; the
